@@ -1,19 +1,24 @@
 /-
-  The regenerated `tinyjambu_permutation_128` (TJ.Gen.MiniC.Prog, translated from
-  src/tinyjambu/backend/tinyjambu-128-c32.c by tools/c2lean.py), whole function: prologue (four loads),
-  the round loop (TJ.Proofs.PermC.loop128_spec), epilogue (four stores), the call itself, and the bridge from
-  the natural-number arithmetic of the MiniC semantics to the word-level model `TJ.perm128`.
+  The regenerated `tinyjambu_permutation_128` and `tinyjambu_permutation_256` (TJ.Gen.MiniC.Prog, translated from
+  src/backend/tinyjambu-{128,256}-c32.c by tools/c2lean.py), whole functions: prologue (four loads), the round loop
+  (TJ.Proofs.PermC.loopG_spec), epilogue (four stores), the call itself, and the bridge from the natural-number
+  arithmetic of the MiniC semantics to the word-level models `TJ.perm128` / `TJ.perm256`.  The two bodies are the
+  same statement up to the offset `o` of the second round's key words (`bodyG o`).
 -/
 import TJ.Proofs.PermC
 namespace TJ.MiniC.PermC
 open TJ TJ.MiniC TJ.Gen.MiniC
 
-theorem body128_eq : f_tinyjambu_permutation_128.body =
+/-- the function body, parameterised by the offset of the second round's key words -/
+def bodyG (o : Nat) : Stmt :=
     seqs [seqs [.load 7 .u32 (.var 0), .assign 6 (.var 7)], seqs [.load 9 .u32 (.bin .add .u64 (.var 0) (.lit 4)), .assign 8 (.var 9)],
       seqs [.load 11 .u32 (.bin .add .u64 (.var 0) (.lit 8)), .assign 10 (.var 11)], seqs [.load 13 .u32 (.bin .add .u64 (.var 0) (.lit 12)), .assign 12 (.var 13)],
-      loop128,
+      loopG o,
       seqs [.assign 22 (.var 0), .store .u32 (.var 22) (.var 6)], seqs [.assign 23 (.bin .add .u64 (.var 0) (.lit 4)), .store .u32 (.var 23) (.var 8)],
-      seqs [.assign 24 (.bin .add .u64 (.var 0) (.lit 8)), .store .u32 (.var 24) (.var 10)], seqs [.assign 25 (.bin .add .u64 (.var 0) (.lit 12)), .store .u32 (.var 25) (.var 12)]] := rfl
+      seqs [.assign 24 (.bin .add .u64 (.var 0) (.lit 8)), .store .u32 (.var 24) (.var 10)], seqs [.assign 25 (.bin .add .u64 (.var 0) (.lit 12)), .store .u32 (.var 25) (.var 12)]]
+
+theorem body128_eq : f_tinyjambu_permutation_128.body = bodyG 16 := rfl
+theorem body256_eq : f_tinyjambu_permutation_256.body = bodyG 32 := rfl
 
 /-- the environment at function entry: state pointer, round count, 24 undefined locals -/
 def env0 (ptr r : Nat) : Env := #[(ptr, .pub), (r, .pub), (0, .undef), (0, .undef), (0, .undef), (0, .undef), (0, .undef), (0, .undef),
@@ -31,8 +36,8 @@ theorem ptr_off (bs base off : Nat) (hbb : bs < 2 ^ 30) (h : base + off < ptrBas
   rw [this, Nat.mod_eq_of_lt (mkPtr_lt bs _ hbb h)]
 
 /-- the four initial loads -/
-theorem pre128 (prog : Program) (f : Nat → Nat) (hf : ∀ i, f (i + 1) = Fu (f i)) (m : Nat) (st : St) (r a b c d k0 k1 k2 k3 bs : Nat) (blk : Block)
-    (km : KM st bs blk k0 k1 k2 k3) (rest : Stmt)
+theorem pre128 (prog : Program) (f : Nat → Nat) (hf : ∀ i, f (i + 1) = Fu (f i)) (m o : Nat) (st : St) (r a b c d k0 k1 k2 k3 k4 k5 k6 k7 bs : Nat) (blk : Block)
+    (km : KM st bs blk o k0 k1 k2 k3 k4 k5 k6 k7) (rest : Stmt)
     (w0 : readLE blk.bytes 0 4 = some (a, .sec)) (w1 : readLE blk.bytes 4 4 = some (b, .sec))
     (w2 : readLE blk.bytes 8 4 = some (c, .sec)) (w3 : readLE blk.bytes 12 4 = some (d, .sec)) :
     ∃ env' leak', exec prog (f (m + 7))
@@ -40,7 +45,7 @@ theorem pre128 (prog : Program) (f : Nat → Nat) (hf : ∀ i, f (i + 1) = Fu (f
           (.seq (seqs [.load 11 .u32 (.bin .add .u64 (.var 0) (.lit 8)), .assign 10 (.var 11)])
             (.seq (seqs [.load 13 .u32 (.bin .add .u64 (.var 0) (.lit 12)), .assign 12 (.var 13)]) rest))))
         (env0 (mkPtr bs blk.base) r) st =
-      exec prog (f (m + 3)) rest env' { st with leak := leak' } ∧ Inv env' (mkPtr bs blk.base) r a b c d := by
+      exec prog (f (m + 3)) rest env' { st with leak := leak' } ∧ Inv 26 env' (mkPtr bs blk.base) r a b c d := by
   have hbk : blockBytes st.mem bs = blk.bytes := by simp [blockBytes, km.hb]
   have hlt := km.lt
   have hsz := km.sz
@@ -70,7 +75,7 @@ theorem pre128 (prog : Program) (f : Nat → Nat) (hf : ∀ i, f (i + 1) = Fu (f
     rw [exec_load_ok' prog (hf (m + 1)) 13 .u32 _ _ { st with leak := Ev.rd (mkPtr bs (blk.base + 8)) 4 :: Ev.rd (mkPtr bs (blk.base + 4)) 4 :: Ev.rd (mkPtr bs (blk.base)) 4 :: st.leak } (mkPtr bs (blk.base + 12)) bs 12 4 (d, .sec) rfl (by ev; simp only [p12]) r12 (by rw [hbk]; exact w3)]
     ev
     rw [exec_assign' prog (hf (m + 1))]; ev
-  · exact ⟨by simp [envPre], by simp [envPre], by simp [envPre], by simp [envPre], by simp [envPre], by simp [envPre], by simp [envPre]⟩
+  · exact ⟨by simp [envPre], by decide, by simp [envPre], by simp [envPre], by simp [envPre], by simp [envPre], by simp [envPre], by simp [envPre]⟩
 
 
 theorem size_writeLE (l : Lab) : ∀ (n : Nat) (bs : Array LByte) (off v : Nat), (writeLE bs off v l n).size = bs.size
@@ -102,7 +107,7 @@ def bytesAfter (bytes : Array LByte) (a b c d : Nat) : Array LByte :=
   writeLE (writeLE (writeLE (writeLE bytes 0 a .sec 4) 4 b .sec 4) 8 c .sec 4) 12 d .sec 4
 
 theorem post128 (prog : Program) (f : Nat → Nat) (hf : ∀ i, f (i + 1) = Fu (f i)) (m : Nat) (env : Env) (st : St)
-    (r a b c d bs : Nat) (blk : Block) (inv : Inv env (mkPtr bs blk.base) r a b c d)
+    (r a b c d bs : Nat) (blk : Block) (inv : Inv 26 env (mkPtr bs blk.base) r a b c d)
     (hb : st.mem[bs]? = some blk) (hal : blk.base % 4 = 0) (hlt : blk.base + 32 < ptrBase) (hbb : bs < 2 ^ 30) (hsz : 32 ≤ blk.bytes.size) :
     ∃ env' leak', exec prog (f (m + 5))
         (seqs [seqs [.assign 22 (.var 0), .store .u32 (.var 22) (.var 6)], seqs [.assign 23 (.bin .add .u64 (.var 0) (.lit 4)), .store .u32 (.var 23) (.var 8)],
@@ -158,28 +163,28 @@ theorem post128 (prog : Program) (f : Nat → Nat) (hf : ∀ i, f (i + 1) = Fu (
 
 /-- **the regenerated `tinyjambu_permutation_128`, whole body.**  Started on a state object (block `bs`, four state
 words at offsets 0..12, four key words at 16..28, all secret, 4-aligned) with any round count below 2^32, the function
-body completes normally, leaves `permN128` of the state words in the object and changes nothing else in memory. -/
-theorem perm128_body (prog : Program) (f : Nat → Nat) (hf : ∀ i, f (i + 1) = Fu (f i)) (m : Nat) (st : St)
-    (r a b c d k0 k1 k2 k3 bs : Nat) (blk : Block) (hr : r < 4294967296) (km : KM st bs blk k0 k1 k2 k3)
+body completes normally, leaves `permNG` of the state words in the object and changes nothing else in memory. -/
+theorem permG_body (prog : Program) (f : Nat → Nat) (hf : ∀ i, f (i + 1) = Fu (f i)) (m o : Nat) (st : St)
+    (r a b c d k0 k1 k2 k3 k4 k5 k6 k7 bs : Nat) (blk : Block) (hr : r < 4294967296) (km : KM st bs blk o k0 k1 k2 k3 k4 k5 k6 k7)
     (w0 : readLE blk.bytes 0 4 = some (a, .sec)) (w1 : readLE blk.bytes 4 4 = some (b, .sec))
     (w2 : readLE blk.bytes 8 4 = some (c, .sec)) (w3 : readLE blk.bytes 12 4 = some (d, .sec)) :
-    ∃ env' leak', exec prog (f (m + r + 23)) f_tinyjambu_permutation_128.body (env0 (mkPtr bs blk.base) r) st =
+    ∃ env' leak', exec prog (f (m + r + 23)) (bodyG o) (env0 (mkPtr bs blk.base) r) st =
       .ok .normal env' { st with leak := leak', mem := (setBlock st.mem bs
-        (bytesAfter blk.bytes (permN128 k0 k1 k2 k3 r (a, b, c, d)).1 (permN128 k0 k1 k2 k3 r (a, b, c, d)).2.1
-          (permN128 k0 k1 k2 k3 r (a, b, c, d)).2.2.1 (permN128 k0 k1 k2 k3 r (a, b, c, d)).2.2.2)) } := by
-  rw [body128_eq]
-  obtain ⟨env1, leak1, h1, inv1⟩ := pre128 prog f hf (m + r + 16) st r a b c d k0 k1 k2 k3 bs blk km
-    (seqs [loop128, seqs [.assign 22 (.var 0), .store .u32 (.var 22) (.var 6)], seqs [.assign 23 (.bin .add .u64 (.var 0) (.lit 4)), .store .u32 (.var 23) (.var 8)],
+        (bytesAfter blk.bytes (permNG k0 k1 k2 k3 k4 k5 k6 k7 r (a, b, c, d)).1 (permNG k0 k1 k2 k3 k4 k5 k6 k7 r (a, b, c, d)).2.1
+          (permNG k0 k1 k2 k3 k4 k5 k6 k7 r (a, b, c, d)).2.2.1 (permNG k0 k1 k2 k3 k4 k5 k6 k7 r (a, b, c, d)).2.2.2)) } := by
+  unfold bodyG
+  obtain ⟨env1, leak1, h1, inv1⟩ := pre128 prog f hf (m + r + 16) o st r a b c d k0 k1 k2 k3 k4 k5 k6 k7 bs blk km
+    (seqs [loopG o, seqs [.assign 22 (.var 0), .store .u32 (.var 22) (.var 6)], seqs [.assign 23 (.bin .add .u64 (.var 0) (.lit 4)), .store .u32 (.var 23) (.var 8)],
       seqs [.assign 24 (.bin .add .u64 (.var 0) (.lit 8)), .store .u32 (.var 24) (.var 10)], seqs [.assign 25 (.bin .add .u64 (.var 0) (.lit 12)), .store .u32 (.var 25) (.var 12)]]) w0 w1 w2 w3
-  have km1 : KM { st with leak := leak1 } bs blk k0 k1 k2 k3 := km.leak leak1
-  obtain ⟨env2, leak2, h2, inv2⟩ := loop128_spec prog f hf k0 k1 k2 k3 bs blk r m env1 { st with leak := leak1 } a b c d hr inv1 km1
-  obtain ⟨env3, leak3, h3⟩ := post128 prog f hf (m + r + 13) env2 { st with leak := leak2 } 0 _ _ _ _ bs blk inv2 km.hb km.al km.lt km.bb km.sz
+  have km1 : KM { st with leak := leak1 } bs blk o k0 k1 k2 k3 k4 k5 k6 k7 := km.leak leak1
+  obtain ⟨env2, leak2, h2, inv2⟩ := loopG_spec prog f hf o 26 k0 k1 k2 k3 k4 k5 k6 k7 bs blk r m env1 { st with leak := leak1 } a b c d hr inv1 km1
+  obtain ⟨env3, leak3, h3⟩ := post128 prog f hf (m + r + 13) env2 { st with leak := leak2 } 0 _ _ _ _ bs blk inv2 km.hb km.al (by have := km.lt; have := km.sz; omega) km.bb km.sz
   refine ⟨env3, leak3, ?_⟩
   rw [show m + r + 23 = m + r + 16 + 7 from by omega]
   refine Eq.trans h1 ?_
-  rw [show seqs [loop128, seqs [Stmt.assign 22 (.var 0), .store .u32 (.var 22) (.var 6)], seqs [.assign 23 (.bin .add .u64 (.var 0) (.lit 4)), .store .u32 (.var 23) (.var 8)],
+  rw [show seqs [loopG o, seqs [Stmt.assign 22 (.var 0), .store .u32 (.var 22) (.var 6)], seqs [.assign 23 (.bin .add .u64 (.var 0) (.lit 4)), .store .u32 (.var 23) (.var 8)],
       seqs [.assign 24 (.bin .add .u64 (.var 0) (.lit 8)), .store .u32 (.var 24) (.var 10)], seqs [.assign 25 (.bin .add .u64 (.var 0) (.lit 12)), .store .u32 (.var 25) (.var 12)]]
-     = .seq loop128 (seqs [seqs [.assign 22 (.var 0), .store .u32 (.var 22) (.var 6)], seqs [.assign 23 (.bin .add .u64 (.var 0) (.lit 4)), .store .u32 (.var 23) (.var 8)],
+     = .seq (loopG o) (seqs [seqs [.assign 22 (.var 0), .store .u32 (.var 22) (.var 6)], seqs [.assign 23 (.bin .add .u64 (.var 0) (.lit 4)), .store .u32 (.var 23) (.var 8)],
       seqs [.assign 24 (.bin .add .u64 (.var 0) (.lit 8)), .store .u32 (.var 24) (.var 10)], seqs [.assign 25 (.bin .add .u64 (.var 0) (.lit 12)), .store .u32 (.var 25) (.var 12)]]) from rfl]
   rw [show m + r + 16 + 3 = (m + r + 18) + 1 from by omega, exec_seq' prog (hf (m + r + 18)), h2]
   simp only []
@@ -198,16 +203,26 @@ theorem roundN_toN (s : W4) (k0 k1 k2 k3 : UInt32) :
     roundN (toN s).1 (toN s).2.1 (toN s).2.2.1 (toN s).2.2.2 k0.toNat k1.toNat k2.toNat k3.toNat = toN (round128 s k0 k1 k2 k3) :=
   roundN_eq s k0 k1 k2 k3
 
-/-- the natural-number permutation the regenerated C term computes is the word-level model `perm128` -/
-theorem permN128_eq (k : Key) : ∀ (r : Nat) (s : W4),
-    permN128 (kw k 0).toNat (kw k 1).toNat (kw k 2).toNat (kw k 3).toNat r (toN s) = toN (perm128 k r s)
+/-- the natural-number permutation the regenerated C terms compute is the word-level model `perm128` / `perm256` -/
+theorem permNG_eq128 (k : Key) : ∀ (r : Nat) (s : W4),
+    permNG (kw k 0).toNat (kw k 1).toNat (kw k 2).toNat (kw k 3).toNat (kw k 0).toNat (kw k 1).toNat (kw k 2).toNat (kw k 3).toNat r (toN s) =
+      toN (perm128 k r s)
   | 0, s => rfl
-  | 1, s => by rw [permN128, perm128, roundN_toN]
+  | 1, s => by rw [permNG, perm128, roundN_toN]
   | n + 2, s => by
-    rw [permN128, perm128]
+    rw [permNG, perm128]
     simp only [roundN_toN]
-    exact permN128_eq k n _
+    exact permNG_eq128 k n _
 
+theorem permNG_eq256 (k : Key) : ∀ (r : Nat) (s : W4),
+    permNG (kw k 0).toNat (kw k 1).toNat (kw k 2).toNat (kw k 3).toNat (kw k 4).toNat (kw k 5).toNat (kw k 6).toNat (kw k 7).toNat r (toN s) =
+      toN (perm256 k r s)
+  | 0, s => rfl
+  | 1, s => by rw [permNG, perm256, roundN_toN]
+  | n + 2, s => by
+    rw [permNG, perm256]
+    simp only [roundN_toN]
+    exact permNG_eq256 k n _
 
 theorem getElem?_writeLE_out (l : Lab) : ∀ (n : Nat) (bs : Array LByte) (off v j : Nat), (j < off ∨ off + n ≤ j) →
     (writeLE bs off v l n)[j]? = bs[j]?
@@ -302,26 +317,30 @@ theorem exec_call' (prog : Program) {fuel f' : Nat} (hf : fuel = Fu f') (dst : O
             (exec prog f' fd.body (enterFun fd vs st.mem).1 { st with mem := (enterFun fd vs st.mem).2 }) := by
   subst hf; rfl
 
-theorem enter128 (p r : Nat) (mem : Array Block) :
-    enterFun f_tinyjambu_permutation_128 [(p, .pub), (r, .pub)] mem = (env0 p r, mem) := rfl
+theorem enterG (fd : FunDecl) (hp : fd.nparams = 2) (hv : fd.nvars = 26) (ha : fd.allocs = []) (p r : Nat) (mem : Array Block) :
+    enterFun fd [(p, .pub), (r, .pub)] mem = (env0 p r, mem) := by
+  simp only [enterFun, hp, hv, ha, allocLocals]
+  rfl
 
-/-- **`tinyjambu_permutation_128(state, rounds)` as a call**, in any program that has the regenerated function at index
-`fn`: it returns normally to an unchanged caller environment; memory differs from the old one only in block `bs`. -/
-theorem perm128_call (prog : Program) (fn : Nat) (hprog : prog[fn]? = some f_tinyjambu_permutation_128)
+/-- **`tinyjambu_permutation_128/256(state, rounds)` as a call**, in any program that has at index `fn` a function whose body is
+`bodyG o` (two parameters, 26 variables, no local arrays): it returns normally to an unchanged caller environment; memory differs
+from the old one only in block `bs`. -/
+theorem permG_call (prog : Program) (fn : Nat) (fd : FunDecl) (o : Nat) (hprog : prog[fn]? = some fd) (hbody : fd.body = bodyG o)
+    (hp : fd.nparams = 2) (hv : fd.nvars = 26) (ha : fd.allocs = [])
     (f : Nat → Nat) (hf : ∀ i, f (i + 1) = Fu (f i)) (m : Nat) (env : Env) (st : St) (ep er : Expr)
-    (r a b c d k0 k1 k2 k3 bs : Nat) (blk : Block) (hr : r < 4294967296) (km : KM st bs blk k0 k1 k2 k3)
+    (r a b c d k0 k1 k2 k3 k4 k5 k6 k7 bs : Nat) (blk : Block) (hr : r < 4294967296) (km : KM st bs blk o k0 k1 k2 k3 k4 k5 k6 k7)
     (hep : evalE env ep = .ok (mkPtr bs blk.base, .pub)) (her : evalE env er = .ok (r, .pub))
     (w0 : readLE blk.bytes 0 4 = some (a, .sec)) (w1 : readLE blk.bytes 4 4 = some (b, .sec))
     (w2 : readLE blk.bytes 8 4 = some (c, .sec)) (w3 : readLE blk.bytes 12 4 = some (d, .sec)) :
     ∃ leak', exec prog (f (m + r + 24)) (.call none fn [ep, er]) env st =
       .ok .normal env { st with leak := leak', mem := (setBlock st.mem bs
-        (bytesAfter blk.bytes (permN128 k0 k1 k2 k3 r (a, b, c, d)).1 (permN128 k0 k1 k2 k3 r (a, b, c, d)).2.1
-          (permN128 k0 k1 k2 k3 r (a, b, c, d)).2.2.1 (permN128 k0 k1 k2 k3 r (a, b, c, d)).2.2.2)) } := by
-  obtain ⟨env', leak', h⟩ := perm128_body prog f hf m st r a b c d k0 k1 k2 k3 bs blk hr km w0 w1 w2 w3
+        (bytesAfter blk.bytes (permNG k0 k1 k2 k3 k4 k5 k6 k7 r (a, b, c, d)).1 (permNG k0 k1 k2 k3 k4 k5 k6 k7 r (a, b, c, d)).2.1
+          (permNG k0 k1 k2 k3 k4 k5 k6 k7 r (a, b, c, d)).2.2.1 (permNG k0 k1 k2 k3 k4 k5 k6 k7 r (a, b, c, d)).2.2.2)) } := by
+  obtain ⟨env', leak', h⟩ := permG_body prog f hf m o st r a b c d k0 k1 k2 k3 k4 k5 k6 k7 bs blk hr km w0 w1 w2 w3
   refine ⟨leak', ?_⟩
   rw [exec_call' prog (hf (m + r + 23))]
-  simp only [evalArgs, hep, her, hprog, enter128, List.length_cons, List.length_nil,
-    show f_tinyjambu_permutation_128.nparams = 2 from rfl, ne_eq, not_true_eq_false, if_false]
+  simp only [evalArgs, hep, her, hprog, enterG fd hp hv ha, List.length_cons, List.length_nil, hp, hbody,
+    ne_eq, not_true_eq_false, if_false]
   rw [show ({ mem := st.mem, ent := st.ent, leak := st.leak } : St) = st from rfl, h]
   simp only [leaveFun, assignDst, extract_setBlock]
 
